@@ -1236,6 +1236,26 @@ def run_code(numqi, case, out, env):
     gerr = float(np.abs(gram - np.eye(K)).max())
     out.check(gerr <= ti, site + '/codewords_not_orthonormal', 'Gram matrix of the code words deviates from 1 by %.3g (tol %.3g)' % (gerr, ti), code=NAME[tag])
     out.outcome(('cw', tag, cw), nontrivial=bool(np.count_nonzero(np.abs(cw[0]) > 1e-9) > 1))
+    # ---- the constructor hands out objects the caller owns (VarQEC shifts the encoder it is given in place): after the circuits of a
+    #      first result were edited in place, a second call must still return the shipped code
+    if n <= 8:
+        out.trans()
+        first = get_code(numqi, tag)
+        first['encode'].shift_qubit_index_(1)
+        first['encode'].X(0)
+        for v in first.values():
+            if isinstance(v, list):
+                v.clear()
+        second = get_code(numqi, tag)
+        try:
+            cw2 = np.asarray(numqi.qec.generate_code_np(second['encode'], K))
+            same = cw2.shape == cw.shape and float(np.abs(cw2 - cw).max()) <= ta
+        except Exception as e:  # noqa
+            cw2, same = repr(e), False
+        out.check(same and set(second.keys()) == set(code.keys()) and all(len(second[k_]) == len(code[k_]) for k_ in code if isinstance(code[k_], list)),
+                  site + '/result_shared_between_calls',
+                  'after the encoder / lists of a first generate_code%s() result were edited in place, a second call no longer returns the shipped code (code words %s)'
+                  % (tag, 'differ' if isinstance(cw2, np.ndarray) else cw2), code=NAME[tag])
     # ---- the code's own error list is complete
     out.trans()
     lst = numqi.qec.make_error_list(n, d)
